@@ -108,7 +108,7 @@ def run_c09_reuse(ctx, binary=None):
               ("ReuseConn", "ReuseConn_nv_idlesound.cfg", "IdleSound"),
               ("LazyPipeline", "LazyPipeline_nv_wg.cfg", "NoSpuriousRefusal"), ("LazyPipeline", "LazyPipeline_nv_queue.cfg", "QueueBound"),
               ("LazyPipeline", "LazyPipeline_nv_cap.cfg", "CapBound"), ("LazyPipeline", "LazyPipeline_nv_leak.cfg", "NoLeak")))
-    n = 600 if T else 120
+    n = 600 if T else 60
     rbeh = pl.gen_behaviours(ctx, "reuse", "ReuseConn_gen_c08.cfg", n, 150)
     rscripts = [pl.beh_to_script("reuse", b, "tlc-%d" % i) for i, b in enumerate(rbeh) if
                 len({s["c"] for s in b["steps"] if s["a"] == "Start"}) >= 3]
